@@ -166,6 +166,37 @@ fn gen_case(r: &mut Rng, prop: &str) -> LCase {
             }
         }
     }
+    if prop == "C21" {
+        // block entry / exit probes on constructs outside the replaced regions must keep their place; in particular the
+        // exit probe of an `if` whose else-arm is replaced
+        let alts: Vec<usize> = plan.iter().map(|p| p.0).collect();
+        for a in alts {
+            if body[a] == Op::Else && r.chance(1, 2) {
+                let (mut d, mut j) = (0i32, a);
+                while j > 0 {
+                    j -= 1;
+                    match &body[j] {
+                        Op::End => d += 1,
+                        Op::Block(_) | Op::Loop(_) | Op::If(_) => { if d == 0 { break; } d -= 1; }
+                        _ => {}
+                    }
+                }
+                if matches!(body[j], Op::If(_)) && !removed[j] {
+                    let m = if r.chance(2, 3) { Mode::BlockExit } else { Mode::BlockEntry };
+                    let ops = gen_probe(r, &mut pid);
+                    plan.push((j, m, ops));
+                }
+            }
+        }
+        for _ in 0..r.below(3) {
+            let idx = r.below(body.len() as u64) as usize;
+            if body[idx].is_blockish() && !removed[idx] {
+                let m = if r.chance(1, 2) { Mode::BlockExit } else { Mode::BlockEntry };
+                let ops = gen_probe(r, &mut pid);
+                plan.push((idx, m, ops));
+            }
+        }
+    }
     let k = match prop { "C15" => 1 + r.below(7), _ => r.below(7) };
     for _ in 0..k {
         let idx = r.below(body.len() as u64) as usize;
